@@ -40,6 +40,28 @@ Proof.
   - exfalso. apply Hni. rewrite <- He. apply in_map; exact Hp.
 Qed.
 
+(* store fail-epochs *)
+Definition epoch_ok (c : cache) (x : region) : Prop :=
+  store_epoch (c_sepochs c) (snd (nth (r_work x) (r_peers x) (0, 0))) = nth (r_work x) (r_sepochs x) 0.
+Lemma nth_stamp se (l : list peer) i : (i < length l)%nat ->
+  nth i (map (fun p : peer => store_epoch se (snd p)) l) 0 = store_epoch se (snd (nth i l (0, 0))).
+Proof.
+  intros H. rewrite (nth_indep _ 0 (store_epoch se (snd ((0, 0) : peer)))) by (rewrite map_length; exact H).
+  apply (map_nth (fun p : peer => store_epoch se (snd p))).
+Qed.
+Lemma set_nth_length v : forall i l, length (set_nth i v l) = length l.
+Proof. induction i as [|i IH]; intros [|x t]; cbn [set_nth length]; try reflexivity; rewrite IH; reflexivity. Qed.
+Lemma nth_set_nth v : forall i l, (i < length l)%nat -> nth i (set_nth i v l) 0 = v.
+Proof. induction i as [|i IH]; intros [|x t] H; cbn [set_nth length nth] in *; try lia; try reflexivity. apply IH; lia. Qed.
+Lemma epoch_ok_inherit c c' r deleted : c_sepochs c' = c_sepochs c -> (r_work (inherit (stamp (c_sepochs c) r) deleted) < length (r_peers r))%nat ->
+  epoch_ok c' (inherit (stamp (c_sepochs c) r) deleted).
+Proof.
+  intros Hse Hw. unfold epoch_ok. rewrite Hse.
+  assert (Hp : r_peers (inherit (stamp (c_sepochs c) r) deleted) = r_peers r /\ r_sepochs (inherit (stamp (c_sepochs c) r) deleted) = map (fun p : peer => store_epoch (c_sepochs c) (snd p)) (r_peers r)).
+  { unfold inherit, with_work. destruct deleted as [|old t]; [split; reflexivity|]. destruct (r_reason old =? 1); split; reflexivity. }
+  destruct Hp as [Hp1 Hp2]. rewrite Hp1, Hp2. symmetry. apply nth_stamp. exact Hw.
+Qed.
+
 Section Conv.
 Variable truth : list desc.
 Hypothesis Htw : truth_wf truth.
@@ -63,9 +85,9 @@ Notation store_reply := (store_reply truth cur_of).
 Definition load_state (c : cache) : Prop :=
   match search (c_sorted c) k false with None => True | Some x => r_expired x = true \/ flagged x = true end.
 Definition st_T (c : cache) (e : region) : Prop :=
-  search (c_sorted c) k false = Some e /\ r_expired e = false /\ flagged e = false /\ r_verid e = d_verid T.
+  search (c_sorted c) k false = Some e /\ r_expired e = false /\ flagged e = false /\ r_verid e = d_verid T /\ epoch_ok c e.
 Definition stale (c : cache) (x : region) : Prop :=
-  search (c_sorted c) k false = Some x /\ r_expired x = false /\ flagged x = false /\ r_verid x <> d_verid T.
+  search (c_sorted c) k false = Some x /\ r_expired x = false /\ flagged x = false /\ r_verid x <> d_verid T /\ epoch_ok c x.
 
 Lemma peers_T_nonempty R : In R truth -> d_peers R <> [].
 Proof. intros HR E. pose proof (tw_leader _ Htw R HR) as H. rewrite E in H. destruct H. Qed.
@@ -100,17 +122,20 @@ Qed.
 (* every state that is not a valid unflagged hit loads the current region and caches it *)
 Lemma find_load c : cinv c -> load_state c ->
   exists c1 r1, find_region_by_key pd budget fuel 0 c k false = (Ok (new_region T), c1, 1%nat) /\ cinv c1 /\
-    search (c_sorted c1) k false = Some r1 /\ In r1 (c_sorted c1) /\ r_verid r1 = d_verid T /\ r_expired r1 = false /\ flagged r1 = false.
+    search (c_sorted c1) k false = Some r1 /\ In r1 (c_sorted c1) /\ r_verid r1 = d_verid T /\ r_expired r1 = false /\ flagged r1 = false /\ epoch_ok c1 r1.
 Proof.
   intros Hc Hl.
-  assert (Hins : forall c0, cinv c0 -> exists c1 r1, insert_region c0 (new_region T) = (true, c1) /\ cinv c1 /\
-            search (c_sorted c1) k false = Some r1 /\ In r1 (c_sorted c1) /\ r_verid r1 = d_verid T /\ r_expired r1 = false /\ flagged r1 = false).
-  { intros c0 Hc0. destruct (insert_truth truth Htw c0 (new_region T) T Hc0 HT (of_truth_new T) (fresh_new T) (work_new T HT)) as [c1 [deleted [Hi [Hc1 _]]]].
-    assert (Hne : nonempty_range (new_region T)) by (apply (tw_nonempty _ Htw T HT)).
-    destruct (search_after_insert c0 (new_region T) c1 k (ci_sorted _ c0 Hc0) Hne Hi HTk) as [del2 [Hs Hin]].
-    exists c1, (inherit (new_region T) del2). split; [exact Hi|]. split; [exact Hc1|]. split; [exact Hs|]. split; [exact Hin|].
-    destruct (inherit_same (new_region T) del2) as [I1 [_ [_ [I4 [I5 [_ [I7 [I8 [I9 _]]]]]]]]].
-    split; [unfold r_verid, d_verid; rewrite I1, I4, I5; reflexivity|]. split; [rewrite I7; reflexivity|]. unfold flagged. rewrite I8, I9. reflexivity. }
+  assert (Hins : forall c0, cinv c0 -> exists c1 r1, insert_new c0 (new_region T) = (true, c1) /\ cinv c1 /\
+            search (c_sorted c1) k false = Some r1 /\ In r1 (c_sorted c1) /\ r_verid r1 = d_verid T /\ r_expired r1 = false /\ flagged r1 = false /\ epoch_ok c1 r1).
+  { intros c0 Hc0. unfold insert_new. set (r0 := stamp (c_sepochs c0) (new_region T)).
+    destruct (insert_truth truth Htw c0 r0 T Hc0 HT (of_truth_new T) (fresh_new T) (work_new T HT)) as [c1 [deleted [Hi [Hc1 [Hse _]]]]].
+    { unfold r0. cbn [stamp r_sepochs r_peers]. apply map_length. }
+    assert (Hne : nonempty_range r0) by (apply (tw_nonempty _ Htw T HT)).
+    destruct (search_after_insert c0 r0 c1 k (ci_sorted _ c0 Hc0) Hne Hi HTk) as [del2 [Hs Hin]].
+    exists c1, (inherit r0 del2). split; [exact Hi|]. split; [exact Hc1|]. split; [exact Hs|]. split; [exact Hin|].
+    destruct (inherit_same r0 del2) as [I1 [_ [_ [I4 [I5 [I6 [I7 [I8 [I9 _]]]]]]]]].
+    split; [unfold r_verid, d_verid; rewrite I1, I4, I5; reflexivity|]. split; [rewrite I7; reflexivity|]. split; [unfold flagged; rewrite I8, I9; reflexivity|].
+    apply epoch_ok_inherit; [exact Hse|]. destruct (ci_ok _ c1 Hc1 _ Hin) as [_ [_ [Hw _]]]. rewrite I6 in Hw. exact Hw. }
   unfold find_region_by_key. unfold load_state in Hl.
   destruct (search (c_sorted c) k false) as [x|] eqn:Es.
   - destruct (r_expired x) eqn:Ee.
@@ -119,6 +144,7 @@ Proof.
       assert (Hx : In x (c_sorted c)) by (eapply search_in; exact Es).
       destruct (upd_entry_inv truth c x clear_access_flags Hc Hx shape_clear) as [Hc0 _].
       { destruct (ci_ok _ c Hc x Hx) as [A [B [C D]]]. repeat split; assumption. }
+      { apply (ci_len _ c Hc x Hx). }
       destruct (Hins _ Hc0) as [c1 [r1 [Hi H]]]. rewrite Hi. exists c1, r1. split; [reflexivity|exact H].
   - rewrite (load_T 0 Hbud). destruct (Hins c Hc) as [c1 [r1 [Hi H]]]. rewrite Hi. exists c1, r1. split; [reflexivity|exact H].
 Qed.
@@ -126,11 +152,18 @@ Lemma find_hit c x : search (c_sorted c) k false = Some x -> r_expired x = false
   find_region_by_key pd budget fuel 0 c k false = (Ok x, c, 0%nat).
 Proof. intros Hs He Hf. unfold find_region_by_key. rewrite Hs, He, Hf. reflexivity. Qed.
 
-Lemma rpc_ctx_in c x : cinv c -> In x (c_sorted c) -> r_expired x = false -> flagged x = false ->
-  rpc_ctx c (r_verid x) = Some (x, nth (r_work x) (r_peers x) (0, 0)).
+Lemma rpc_ctx_in c x : cinv c -> In x (c_sorted c) -> r_expired x = false -> flagged x = false -> epoch_ok c x ->
+  rpc_ctx c (r_verid x) = (Some (x, nth (r_work x) (r_peers x) (0, 0)), c).
 Proof.
-  intros Hc Hx He Hf. unfold rpc_ctx. rewrite (get_by_verid_in truth c x Hc Hx), He.
-  unfold flagged in Hf. apply orb_false_iff in Hf. destruct Hf as [-> _]. reflexivity.
+  intros Hc Hx He Hf Hep. unfold rpc_ctx. rewrite (get_by_verid_in truth c x Hc Hx), He.
+  unfold flagged in Hf. apply orb_false_iff in Hf. destruct Hf as [-> _]. cbn [orb]. unfold epoch_ok in Hep. rewrite Hep, N.eqb_refl. reflexivity.
+Qed.
+Lemma rpc_ctx_bad c x : cinv c -> In x (c_sorted c) -> r_expired x = false -> flagged x = false -> ~ epoch_ok c x ->
+  rpc_ctx c (r_verid x) = (None, upd_entry c x (invalidate_r 5)).
+Proof.
+  intros Hc Hx He Hf Hep. unfold rpc_ctx. rewrite (get_by_verid_in truth c x Hc Hx), He.
+  unfold flagged in Hf. apply orb_false_iff in Hf. destruct Hf as [-> _]. cbn [orb].
+  destruct (N.eqb_spec (store_epoch (c_sepochs c) (snd (nth (r_work x) (r_peers x) (0, 0)))) (nth (r_work x) (r_sepochs x) 0)) as [E|E]; [contradiction|reflexivity].
 Qed.
 
 (* ---- what the store answers ---- *)
@@ -154,14 +187,14 @@ Qed.
 (* ---- the key's own region is cached ---- *)
 Lemma st_T_entry c e : cinv c -> st_T c e -> In e (c_sorted c) /\ r_peers e = d_peers T /\ (r_work e < length (d_peers T))%nat.
 Proof.
-  intros Hc [Hs [_ [_ Hv]]]. assert (Hin : In e (c_sorted c)) by (eapply search_in; exact Hs).
+  intros Hc [Hs [_ [_ [Hv _]]]]. assert (Hin : In e (c_sorted c)) by (eapply search_in; exact Hs).
   destruct (ci_hist _ c Hc e T Hin HT Hv) as [_ [_ Hp]]. split; [exact Hin|]. split; [exact Hp|].
   destruct (ci_ok _ c Hc e Hin) as [_ [_ [Hw _]]]. rewrite Hp in Hw. exact Hw.
 Qed.
 Lemma st_T_leader_round c e : cinv c -> st_T c e -> nth (r_work e) (r_peers e) (0, 0) = d_leader T -> round c k = (true, c).
 Proof.
-  intros Hc Hst Hl. destruct (st_T_entry c e Hc Hst) as [Hin [Hp Hw]]. destruct Hst as [Hs [He [Hf Hv]]].
-  unfold Converge.round. rewrite (find_hit c e Hs He Hf), (rpc_ctx_in c e Hc Hin He Hf).
+  intros Hc Hst Hl. destruct (st_T_entry c e Hc Hst) as [Hin [Hp Hw]]. destruct Hst as [Hs [He [Hf [Hv Hep]]]].
+  unfold Converge.round. rewrite (find_hit c e Hs He Hf), (rpc_ctx_in c e Hc Hin He Hf Hep).
   rewrite (reply_current T e _ HT Hv); [|rewrite Hl; apply (tw_leader _ Htw T HT)].
   rewrite Hl. rewrite (proj2 (peer_eqb_eq _ _) eq_refl). reflexivity.
 Qed.
@@ -169,16 +202,22 @@ Qed.
 Lemma fix_leader c e : cinv c -> st_T c e ->
   let c2 := update_leader c (r_verid e) (Some (d_leader T)) (r_work e) in cinv c2 /\ round c2 k = (true, c2).
 Proof.
-  intros Hc Hst. destruct (st_T_entry c e Hc Hst) as [Hin [Hp Hw]]. pose proof Hst as [Hs [He [Hf Hv]]].
+  intros Hc Hst. destruct (st_T_entry c e Hc Hst) as [Hin [Hp Hw]]. pose proof Hst as [Hs [He [Hf [Hv Hep]]]].
   cbv zeta. unfold update_leader. rewrite (get_by_verid_in truth c e Hc Hin). rewrite Hp.
   destruct (first_idx_some (d_leader T) (d_peers T) 0 (tw_leader _ Htw T HT)) as [i [Hi [Hib Hnth]]]. rewrite Hi.
   rewrite Nat.sub_0_r in Hnth.
-  destruct (upd_entry_inv truth c e (set_work i) Hc Hin (shape_set_work i)) as [Hc2 Hmem].
+  destruct (Nat.eqb (r_work e) i) eqn:Ewi.
+  { apply Nat.eqb_eq in Ewi. split; [exact Hc|]. apply (st_T_leader_round c e Hc Hst). rewrite Ewi, Hp. exact Hnth. }
+  assert (Hlen : length (r_sepochs e) = length (d_peers T)) by (rewrite <- Hp; apply (ci_len _ c Hc e Hin)).
+  destruct (upd_entry_inv truth c e (switch_work (c_sepochs c) i) Hc Hin (shape_switch_work _ i)) as [Hc2 Hmem].
   { destruct (ci_ok _ c Hc e Hin) as [A [B [C D]]]. repeat split; try assumption. cbn. rewrite Hp. lia. }
-  split; [exact Hc2|]. apply (st_T_leader_round _ (set_work i e) Hc2).
-  - split; [|repeat split; assumption]. rewrite upd_entry_sorted, (search_map _ _ _ (upd_fun_shape e (set_work i) (shape_set_work i))), Hs.
-    cbn [option_map]. rewrite upd_fun_self. reflexivity.
-  - cbn [set_work r_work r_peers]. rewrite Hp. exact Hnth.
+  { cbn [switch_work r_sepochs r_peers]. rewrite set_nth_length. apply (ci_len _ c Hc e Hin). }
+  split; [exact Hc2|]. apply (st_T_leader_round _ (switch_work (c_sepochs c) i e) Hc2).
+  - split; [|split; [exact He|split; [exact Hf|split; [exact Hv|]]]].
+    + rewrite upd_entry_sorted, (search_map _ _ _ (upd_fun_shape e _ (shape_switch_work (c_sepochs c) i))), Hs.
+      cbn [option_map]. rewrite upd_fun_self. reflexivity.
+    + unfold epoch_ok. cbn [switch_work r_work r_peers r_sepochs upd_entry c_sepochs]. rewrite nth_set_nth by lia. reflexivity.
+  - cbn [switch_work r_work r_peers]. rewrite Hp. exact Hnth.
 Qed.
 
 Lemma rounds_S n c c' : round c k = (false, c') -> rounds (S n) c k = rounds n c' k.
@@ -192,14 +231,12 @@ Proof.
 Qed.
 
 (* a cached entry of the key's region: at most one NotLeader round *)
-Lemma from_entry c e : cinv c -> In e (c_sorted c) -> r_verid e = d_verid T -> r_expired e = false -> flagged e = false ->
-  search (c_sorted c) k false = Some e ->
-  forall r0, find_region_by_key pd budget fuel 0 c k false = (Ok r0, c, 0%nat) \/ True ->
-  rpc_ctx c (r_verid e) = Some (e, nth (r_work e) (r_peers e) (0, 0)) /\
+Lemma from_entry c e : cinv c -> In e (c_sorted c) -> r_verid e = d_verid T -> r_expired e = false -> flagged e = false -> epoch_ok c e ->
+  rpc_ctx c (r_verid e) = (Some (e, nth (r_work e) (r_peers e) (0, 0)), c) /\
   (nth (r_work e) (r_peers e) (0, 0) = d_leader T \/
    store_reply (r_verid e) (nth (r_work e) (r_peers e) (0, 0)) = RepNotLeader (d_leader T)).
 Proof.
-  intros Hc Hin Hv He Hf Hs r0 _. split; [apply rpc_ctx_in; assumption|].
+  intros Hc Hin Hv He Hf Hep. split; [apply rpc_ctx_in; assumption|].
   destruct (ci_hist _ c Hc e T Hin HT Hv) as [_ [_ Hp]]. destruct (ci_ok _ c Hc e Hin) as [_ [_ [Hw _]]].
   assert (Hpin : In (nth (r_work e) (r_peers e) (0, 0)) (d_peers T)) by (rewrite <- Hp; apply nth_In; exact Hw).
   rewrite (reply_current T e _ HT Hv Hpin). destruct (peer_eqb (nth (r_work e) (r_peers e) (0, 0)) (d_leader T)) eqn:E.
@@ -209,8 +246,8 @@ Qed.
 
 Lemma st_T_converges c e : cinv c -> st_T c e -> rounds 2 c k = true.
 Proof.
-  intros Hc Hst. destruct (st_T_entry c e Hc Hst) as [Hin [Hp Hw]]. pose proof Hst as [Hs [He [Hf Hv]]].
-  destruct (from_entry c e Hc Hin Hv He Hf Hs e (or_intror I)) as [Hrpc [Hl|Hrep]].
+  intros Hc Hst. destruct (st_T_entry c e Hc Hst) as [Hin [Hp Hw]]. pose proof Hst as [Hs [He [Hf [Hv Hep]]]].
+  destruct (from_entry c e Hc Hin Hv He Hf Hep) as [Hrpc [Hl|Hrep]].
   - eapply rounds_true. apply (st_T_leader_round c e Hc Hst Hl).
   - assert (Hr : round c k = (false, update_leader c (r_verid e) (Some (d_leader T)) (r_work e))).
     { unfold Converge.round. rewrite (find_hit c e Hs He Hf), Hrpc, Hrep. reflexivity. }
@@ -219,10 +256,10 @@ Qed.
 
 Lemma load_converges c : cinv c -> load_state c -> rounds 2 c k = true.
 Proof.
-  intros Hc Hl. destruct (find_load c Hc Hl) as [c1 [r1 [Hf [Hc1 [Hs [Hin [Hv [He Hfl]]]]]]]].
+  intros Hc Hl. destruct (find_load c Hc Hl) as [c1 [r1 [Hf [Hc1 [Hs [Hin [Hv [He [Hfl Hep]]]]]]]]].
   assert (Hst : st_T c1 r1) by (repeat split; assumption).
   assert (Hvn : r_verid (new_region T) = r_verid r1) by (rewrite Hv; reflexivity).
-  destruct (from_entry c1 r1 Hc1 Hin Hv He Hfl Hs r1 (or_intror I)) as [Hrpc [Hlead|Hrep]].
+  destruct (from_entry c1 r1 Hc1 Hin Hv He Hfl Hep) as [Hrpc [Hlead|Hrep]].
   - eapply rounds_true. unfold Converge.round. rewrite Hf, Hvn, Hrpc.
     destruct (st_T_entry c1 r1 Hc1 Hst) as [_ [Hp Hw]].
     rewrite (reply_current T r1 _ HT Hv); [|rewrite Hlead; apply (tw_leader _ Htw T HT)].
@@ -233,49 +270,70 @@ Proof.
 Qed.
 
 (* ---- a valid entry of another (stale) description answers for the key ---- *)
-Lemma stale_entry c x : cinv c -> stale c x -> In x (c_sorted c) /\ r_contains x k = true /\ r_reason x = 0.
+Lemma found_entry c x : cinv c -> search (c_sorted c) k false = Some x -> r_expired x = false ->
+  In x (c_sorted c) /\ r_contains x k = true /\ r_reason x = 0.
 Proof.
-  intros Hc [Hs [He _]]. assert (Hin : In x (c_sorted c)) by (eapply search_in; exact Hs). split; [exact Hin|].
+  intros Hc Hs He. assert (Hin : In x (c_sorted c)) by (eapply search_in; exact Hs). split; [exact Hin|].
   split; [exact (search_contains _ _ false _ Hs)|]. destruct (ci_ok _ c Hc x Hin) as [_ [_ [_ Hr]]].
   destruct (N.eq_dec (r_reason x) 0) as [E|E]; [exact E|]. rewrite (Hr E) in He. discriminate.
 Qed.
+Lemma stale_entry c x : cinv c -> stale c x -> In x (c_sorted c) /\ r_contains x k = true /\ r_reason x = 0.
+Proof. intros Hc [Hs [He _]]. apply found_entry; assumption. Qed.
 (* a stale entry does not carry the version of any current region *)
 Lemma stale_not_current c x R : cinv c -> stale c x -> In R truth -> r_verid x <> d_verid R.
 Proof.
-  intros Hc Hst HR Hv. destruct (stale_entry c x Hc Hst) as [Hin [Hk _]]. destruct Hst as [_ [_ [_ Hne]]].
+  intros Hc Hst HR Hv. destruct (stale_entry c x Hc Hst) as [Hin [Hk _]]. destruct Hst as [_ [_ [_ [Hne _]]]].
   destruct (ci_hist _ c Hc x R Hin HR Hv) as [H1 [H2 _]].
   assert (R = T); [|subst R; contradiction]. apply (tw_disjoint _ Htw R T k HR HT); [|exact HTk].
   unfold tcontains. rewrite <- H1, <- H2. exact Hk.
 Qed.
 
 (* invalidating the entry that answers for the key leads to a reload *)
-Lemma invalidate_to_load c x reason : cinv c -> stale c x -> reason <> 0 ->
-  cinv (invalidate c (r_verid x) reason) /\ load_state (invalidate c (r_verid x) reason).
+Lemma invalidate_found c x reason : cinv c -> search (c_sorted c) k false = Some x -> r_expired x = false -> reason <> 0 ->
+  cinv (upd_entry c x (invalidate_r reason)) /\ load_state (upd_entry c x (invalidate_r reason)).
 Proof.
-  intros Hc Hst Hr. destruct (stale_entry c x Hc Hst) as [Hin [_ Hr0]]. destruct Hst as [Hs _].
-  unfold invalidate. rewrite (get_by_verid_in truth c x Hc Hin).
+  intros Hc Hs He Hr. destruct (found_entry c x Hc Hs He) as [Hin [_ Hr0]].
   destruct (upd_entry_inv truth c x (invalidate_r reason) Hc Hin (shape_invalidate reason)) as [Hc2 _].
   { destruct (ci_ok _ c Hc x Hin) as [A [B [C D]]]. unfold invalidate_r. rewrite Hr0. cbn. repeat split; try assumption. }
+  { unfold invalidate_r. destruct (r_reason x =? 0); apply (ci_len _ c Hc x Hin). }
   split; [exact Hc2|]. unfold load_state.
   rewrite upd_entry_sorted, (search_map _ _ _ (upd_fun_shape x _ (shape_invalidate reason))), Hs. cbn [option_map].
   rewrite upd_fun_self. left. unfold invalidate_r. rewrite Hr0. reflexivity.
+Qed.
+Lemma invalidate_to_load c x reason : cinv c -> stale c x -> reason <> 0 ->
+  cinv (invalidate c (r_verid x) reason) /\ load_state (invalidate c (r_verid x) reason).
+Proof.
+  intros Hc Hst Hr. destruct (stale_entry c x Hc Hst) as [Hin _]. destruct Hst as [Hs [He _]].
+  unfold invalidate. rewrite (get_by_verid_in truth c x Hc Hin). apply invalidate_found; assumption.
+Qed.
+(* somebody failed on the work peer's store since the entry was made: the round only invalidates the entry *)
+Lemma epoch_bad_round c x : cinv c -> search (c_sorted c) k false = Some x -> r_expired x = false -> flagged x = false -> ~ epoch_ok c x ->
+  exists c', round c k = (false, c') /\ cinv c' /\ load_state c'.
+Proof.
+  intros Hc Hs He Hf Hep. destruct (found_entry c x Hc Hs He) as [Hin _].
+  exists (upd_entry c x (invalidate_r 5)). split; [|apply invalidate_found; [exact Hc|exact Hs|exact He|discriminate]].
+  unfold Converge.round. rewrite (find_hit c x Hs He Hf), (rpc_ctx_bad c x Hc Hin He Hf Hep). reflexivity.
 Qed.
 
 (* inserting current regions one after the other never uncovers an older entry for the key *)
 Lemma insert_all_truth : forall news c0,
   cinv c0 -> (forall r, In r news -> exists R, In R truth /\ of_truth r R /\ fresh r /\ (r_work r < length (r_peers r))%nat) ->
-  cinv (insert_all c0 news) /\
+  cinv (insert_all c0 news) /\ c_sepochs (insert_all c0 news) = c_sepochs c0 /\
   forall y, search (c_sorted (insert_all c0 news)) k false = Some y ->
-    (exists r deleted, In r news /\ y = inherit r deleted) \/ search (c_sorted c0) k false = Some y.
+    (exists r deleted, In r news /\ y = inherit (stamp (c_sepochs c0) r) deleted) \/ search (c_sorted c0) k false = Some y.
 Proof.
-  induction news as [|r t IH]; intros c0 Hc0 Hn; [split; [exact Hc0|intros y H; right; exact H]|].
+  induction news as [|r t IH]; intros c0 Hc0 Hn; [split; [exact Hc0|split; [reflexivity|intros y H; right; exact H]]|].
   cbn [insert_all fold_left]. destruct (Hn r ltac:(left; reflexivity)) as [R [HR [Hof [Hfr Hw]]]].
-  destruct (insert_truth truth Htw c0 r R Hc0 HR Hof Hfr Hw) as [c1 [deleted [Hi [Hc1 _]]]]. rewrite Hi. cbn [snd].
-  destruct (IH c1 Hc1 ltac:(intros r' Hr'; apply Hn; right; exact Hr')) as [H1 H2]. split; [exact H1|].
-  intros y Hy. destruct (H2 y Hy) as [[r' [d' [Hr' ->]]]|Hy1]; [left; exists r', d'; split; [right; exact Hr'|reflexivity]|].
-  assert (Hne : nonempty_range r).
-  { destruct Hof as [_ [Hs [He _]]]. unfold nonempty_range. rewrite Hs, He. apply (tw_nonempty _ Htw R HR). }
-  destruct (search_no_unshadow c0 r c1 k y (ci_sorted _ c0 Hc0) Hne Hi Hy1) as [[d' ->]|H]; [left; exists r, d'; split; [left; reflexivity|reflexivity]|right; exact H].
+  set (r0 := stamp (c_sepochs c0) r).
+  destruct (insert_truth truth Htw c0 r0 R Hc0 HR Hof Hfr Hw) as [c1 [deleted [Hi [Hc1 [Hse _]]]]].
+  { unfold r0. cbn [stamp r_sepochs r_peers]. apply map_length. }
+  assert (Hi' : insert_new c0 r = (true, c1)) by exact Hi. rewrite Hi'. cbn [snd].
+  destruct (IH c1 Hc1 ltac:(intros r' Hr'; apply Hn; right; exact Hr')) as [H1 [H1s H2]].
+  split; [exact H1|]. split; [exact (eq_trans H1s Hse)|].
+  intros y Hy. destruct (H2 y Hy) as [[r' [d' [Hr' ->]]]|Hy1]; [left; exists r', d'; split; [right; exact Hr'|rewrite Hse; reflexivity]|].
+  assert (Hne : nonempty_range r0).
+  { destruct Hof as [_ [Hs [He _]]]. unfold nonempty_range, r0. cbn [stamp r_start r_end]. rewrite Hs, He. apply (tw_nonempty _ Htw R HR). }
+  destruct (search_no_unshadow c0 r0 c1 k y (ci_sorted _ c0 Hc0) Hne Hi Hy1) as [[d' ->]|H]; [left; exists r, d'; split; [left; reflexivity|reflexivity]|right; exact H].
 Qed.
 
 (* the EpochNotMatch reaction: afterwards the key is answered by its own region or by a reload *)
@@ -301,22 +359,30 @@ Proof.
     apply (stale_not_current c x d Hc Hst (Hsub d Hd)). unfold r_verid, d_verid in *. congruence. }
   rewrite Hkeep.
   destruct (invalidate_to_load c x 3 Hc Hst ltac:(discriminate)) as [Hc1 Hl1].
-  destruct (insert_all_truth (map (fun d => region_on_store d st) (cur_of R)) _ Hc1) as [Hc3 Hsrch].
+  destruct (insert_all_truth (map (fun d => region_on_store d st) (cur_of R)) _ Hc1) as [Hc3 [Hse3 Hsrch]].
   { intros r Hr. apply in_map_iff in Hr. destruct Hr as [d [<- Hd]]. exists d. split; [apply Hsub; exact Hd|].
     destruct (of_truth_on_store d st) as [O F]. split; [exact O|]. split; [exact F|apply work_on_store; apply Hsub; exact Hd]. }
   eexists. split; [reflexivity|]. split; [exact Hc3|].
-  destruct (search (c_sorted (insert_all (invalidate c (r_verid x) 3) (map (fun d => region_on_store d st) (cur_of R)))) k false) as [y|] eqn:Ey.
+  set (c1 := invalidate c (r_verid x) 3) in *. set (c3 := insert_all c1 (map (fun d => region_on_store d st) (cur_of R))) in *.
+  destruct (search (c_sorted c3) k false) as [y|] eqn:Ey.
   2:{ left. unfold load_state. rewrite Ey. exact I. }
-  destruct (Hsrch y eq_refl) as [[r [deleted [Hr ->]]]|Hold].
-  - right. exists (inherit r deleted). apply in_map_iff in Hr. destruct Hr as [d [<- Hd]].
+  destruct (Hsrch y eq_refl) as [[r [deleted [Hr Hy]]]|Hold].
+  - right. exists y. apply in_map_iff in Hr. destruct Hr as [d [<- Hd]]. set (r0 := stamp (c_sepochs c1) (region_on_store d st)) in *.
     destruct (of_truth_on_store d st) as [[O1 [O2 [O3 [O4 [O5 O6]]]]] [F1 [F2 [F3 F4]]]].
-    destruct (inherit_same (region_on_store d st) deleted) as [I1 [I2 [I3 [I4 [I5 [_ [I7 [I8 [I9 _]]]]]]]]].
-    assert (Hyk : r_contains (inherit (region_on_store d st) deleted) k = true) by (exact (search_contains _ _ false _ Ey)).
+    destruct (inherit_same r0 deleted) as [I1 [I2 [I3 [I4 [I5 [I6 [I7 [I8 [I9 _]]]]]]]]]. rewrite <- Hy in I1, I2, I3, I4, I5, I6, I7, I8, I9.
+    assert (RR : r_id r0 = d_id d /\ r_start r0 = d_start d /\ r_end r0 = d_end d /\ r_ver r0 = d_ver d /\ r_conf r0 = d_conf d /\
+                 r_expired r0 = false /\ r_reload r0 = false /\ r_ready r0 = false)
+      by (unfold r0; cbn [stamp r_id r_start r_end r_ver r_conf r_expired r_reload r_ready]; repeat split; assumption).
+    destruct RR as [R1 [R2 [R3 [R4 [R5 [R7 [R8 R9]]]]]]].
+    assert (Hyk : r_contains y k = true) by (exact (search_contains _ _ false _ Ey)).
     assert (d = T).
-    { apply (tw_disjoint _ Htw d T k (Hsub d Hd) HT); [|exact HTk]. unfold tcontains. unfold r_contains in Hyk. rewrite I2, I3, O2, O3 in Hyk. exact Hyk. }
-    subst d. split; [exact Ey|]. split; [rewrite I7; exact F1|]. split; [unfold flagged; rewrite I8, I9, F3, F4; reflexivity|].
-    unfold r_verid, d_verid. rewrite I1, I4, I5, O1, O4, O5. reflexivity.
-  - left. unfold load_state. rewrite Ey. unfold load_state in Hl1. rewrite Hold in Hl1. exact Hl1.
+    { apply (tw_disjoint _ Htw d T k (Hsub d Hd) HT); [|exact HTk]. unfold tcontains. unfold r_contains in Hyk. rewrite I2, I3, R2, R3 in Hyk. exact Hyk. }
+    subst d. split; [exact Ey|]. split; [rewrite I7; exact R7|]. split; [unfold flagged; rewrite I8, I9, R8, R9; reflexivity|].
+    split; [unfold r_verid, d_verid; rewrite I1, I4, I5, R1, R4, R5; reflexivity|].
+    rewrite Hy. apply epoch_ok_inherit; [exact Hse3|].
+    assert (Hyin : In y (c_sorted c3)) by (eapply search_in; exact Ey). destruct (ci_ok _ c3 Hc3 y Hyin) as [_ [_ [Hw _]]].
+    rewrite I6 in Hw. rewrite Hy in Hw. exact Hw.
+  - left. unfold load_state. rewrite Ey. unfold load_state in Hl1. fold c1 in Hl1. rewrite Hold in Hl1. exact Hl1.
 Qed.
 
 (* ---- one round against a stale entry ---- *)
@@ -327,10 +393,10 @@ Lemma stale_round c x : cinv c -> stale c x ->
   exists c', round c k = (false, c') /\ cinv c' /\
     (load_state c' \/ (exists e, st_T c' e) \/ (~ on_leader x /\ exists x', stale c' x' /\ on_leader x')).
 Proof.
-  intros Hc Hst. destruct (stale_entry c x Hc Hst) as [Hin [Hk Hr0]]. pose proof Hst as [Hs [He [Hf Hv]]].
+  intros Hc Hst. destruct (stale_entry c x Hc Hst) as [Hin [Hk Hr0]]. pose proof Hst as [Hs [He [Hf [Hv Hep]]]].
   set (p := nth (r_work x) (r_peers x) (0, 0)).
   assert (Hround : forall rep, store_reply (r_verid x) p = rep -> rep <> RepOk -> round c k = (false, react c x p rep)).
-  { intros rep Hrep Hne. unfold Converge.round. rewrite (find_hit c x Hs He Hf), (rpc_ctx_in c x Hc Hin He Hf). fold p. rewrite Hrep.
+  { intros rep Hrep Hne. unfold Converge.round. rewrite (find_hit c x Hs He Hf), (rpc_ctx_in c x Hc Hin He Hf Hep). fold p. rewrite Hrep.
     destruct rep; [congruence|reflexivity|reflexivity|reflexivity]. }
   assert (Hnf : forall c', c' = invalidate c (r_verid x) 5 -> cinv c' /\ load_state c').
   { intros c' ->. apply invalidate_to_load; [exact Hc|exact Hst|discriminate]. }
@@ -342,6 +408,12 @@ Proof.
   2:{ eexists. split; [apply (Hround RepRegionNotFound eq_refl); discriminate|]. cbn [react]. destruct (Hnf _ eq_refl) as [A B]. split; [exact A|left; exact B]. }
   destruct (negb (peer_eqb q (d_leader R))) eqn:Enl.
   - (* NotLeader: switch to the leader if the cached description knows it, else invalidate *)
+    assert (Hnotl : ~ on_leader x).
+    { intros [R2 [HR2 [Hid2 Hl2]]]. assert (R2 = R) by (apply (tw_ids _ Htw); [exact HR2|exact HR|congruence]). subst R2.
+      fold p in Hl2. pose proof (find_some _ _ Eq) as [Hqin Hqs]. apply N.eqb_eq in Hqs.
+      assert (q = p).
+      { apply (nodup_store_eq (d_peers R)); [apply (tw_stores _ Htw R HR)|exact Hqin|rewrite Hl2; apply (tw_leader _ Htw R HR)|exact Hqs]. }
+      subst q. rewrite Hl2, (proj2 (peer_eqb_eq _ _) eq_refl) in Enl. discriminate. }
     eexists. split; [apply (Hround (RepNotLeader (d_leader R)) eq_refl); discriminate|]. cbn [react].
     unfold update_leader. rewrite (get_by_verid_in truth c x Hc Hin).
     destruct (first_idx (d_leader R) (r_peers x) 0) as [i|] eqn:Ei.
@@ -351,23 +423,20 @@ Proof.
           apply IH. intros H. apply Hlin. right; exact H. }
       destruct (first_idx_some (d_leader R) (r_peers x) 0 Hlin) as [j [Hj [Hjb Hnth]]]. rewrite Hj in Ei. injection Ei as <-.
       rewrite Nat.sub_0_r in Hnth.
-      destruct (upd_entry_inv truth c x (set_work j) Hc Hin (shape_set_work j)) as [Hc2 _].
+      destruct (Nat.eqb (r_work x) j) eqn:Ewj.
+      { exfalso. apply Nat.eqb_eq in Ewj. apply Hnotl. exists R. split; [exact HR|]. split; [exact Hid|]. rewrite Ewj. exact Hnth. }
+      destruct (upd_entry_inv truth c x (switch_work (c_sepochs c) j) Hc Hin (shape_switch_work _ j)) as [Hc2 _].
       { destruct (ci_ok _ c Hc x Hin) as [A [B [C D]]]. repeat split; try assumption. cbn. lia. }
-      split; [exact Hc2|]. right. right. split.
-      * intros [R2 [HR2 [Hid2 Hl2]]]. assert (R2 = R) by (apply (tw_ids _ Htw); [exact HR2|exact HR|congruence]). subst R2.
-        fold p in Hl2. pose proof (find_some _ _ Eq) as [Hqin Hqs]. apply N.eqb_eq in Hqs.
-        assert (q = p).
-        { apply (nodup_store_eq (d_peers R)); [apply (tw_stores _ Htw R HR)|exact Hqin|rewrite Hl2; apply (tw_leader _ Htw R HR)|exact Hqs]. }
-        subst q. rewrite Hl2, (proj2 (peer_eqb_eq _ _) eq_refl) in Enl. discriminate.
-      * exists (set_work j x). split.
-        -- split; [|repeat split; assumption]. rewrite upd_entry_sorted, (search_map _ _ _ (upd_fun_shape x (set_work j) (shape_set_work j))), Hs.
+      { cbn [switch_work r_sepochs r_peers]. rewrite set_nth_length. apply (ci_len _ c Hc x Hin). }
+      split; [exact Hc2|]. right. right. split; [exact Hnotl|].
+      exists (switch_work (c_sepochs c) j x). split.
+      * split; [|split; [exact He|split; [exact Hf|split; [exact Hv|]]]].
+        -- rewrite upd_entry_sorted, (search_map _ _ _ (upd_fun_shape x _ (shape_switch_work (c_sepochs c) j))), Hs.
            cbn [option_map]. rewrite upd_fun_self. reflexivity.
-        -- exists R. split; [exact HR|]. split; [exact Hid|]. exact Hnth.
-    + destruct (upd_entry_inv truth c x (invalidate_r 4) Hc Hin (shape_invalidate 4)) as [Hc2 _].
-      { destruct (ci_ok _ c Hc x Hin) as [A [B [C D]]]. unfold invalidate_r. rewrite Hr0. cbn. repeat split; try assumption. }
-      split; [exact Hc2|]. left. unfold load_state.
-      rewrite upd_entry_sorted, (search_map _ _ _ (upd_fun_shape x _ (shape_invalidate 4))), Hs. cbn [option_map].
-      rewrite upd_fun_self. left. unfold invalidate_r. rewrite Hr0. reflexivity.
+        -- unfold epoch_ok. cbn [switch_work r_work r_peers r_sepochs upd_entry c_sepochs].
+           rewrite nth_set_nth by (rewrite (ci_len _ c Hc x Hin); lia). reflexivity.
+      * exists R. split; [exact HR|]. split; [exact Hid|]. exact Hnth.
+    + destruct (invalidate_found c x 4 Hc Hs He ltac:(discriminate)) as [A B]. split; [exact A|left; exact B].
   - destruct ((d_ver R =? r_ver x) && (d_conf R =? r_conf x)) eqn:Eep.
     { exfalso. apply andb_true_iff in Eep. rewrite !N.eqb_eq in Eep. destruct Eep as [E1 E2].
       apply (stale_not_current c x R Hc Hst HR). unfold r_verid, d_verid. congruence. }
@@ -388,6 +457,9 @@ Proof.
   { do 2 apply rounds_mono. apply load_converges; [exact Hc|]. unfold load_state. rewrite Es. left; exact Ee. }
   destruct (flagged x) eqn:Ef.
   { do 2 apply rounds_mono. apply load_converges; [exact Hc|]. unfold load_state. rewrite Es. right; exact Ef. }
+  destruct (N.eq_dec (store_epoch (c_sepochs c) (snd (nth (r_work x) (r_peers x) (0, 0)))) (nth (r_work x) (r_sepochs x) 0)) as [Hep|Hep].
+  2:{ destruct (epoch_bad_round c x Hc Es Ee Ef Hep) as [c1 [Hr1 [Hc1 Hl1]]]. rewrite (rounds_S _ _ _ Hr1).
+      apply rounds_mono. apply load_converges; assumption. }
   destruct (verid_eqb (r_verid x) (d_verid T)) eqn:Ev.
   { apply verid_eqb_eq in Ev. do 2 apply rounds_mono. apply (st_T_converges c x Hc). repeat split; assumption. }
   assert (Hst : stale c x).
@@ -402,42 +474,38 @@ Qed.
    with that region's current epoch *)
 Lemma round_served c c' : cinv c -> round c k = (true, c') ->
   exists e, In e (c_sorted c') /\ r_verid e = d_verid T /\ r_contains e k = true /\
-            rpc_ctx c' (r_verid e) = Some (e, d_leader T) /\ store_reply (r_verid e) (d_leader T) = RepOk.
+            store_reply (r_verid e) (d_leader T) = RepOk /\ nth (r_work e) (r_peers e) (0, 0) = d_leader T.
 Proof.
   intros Hc Hr.
   assert (Hent : forall c1 e, cinv c1 -> In e (c_sorted c1) -> search (c_sorted c1) k false = Some e -> r_verid e = d_verid T ->
-            r_expired e = false -> flagged e = false ->
+            r_expired e = false -> flagged e = false -> epoch_ok c1 e ->
             match store_reply (r_verid e) (nth (r_work e) (r_peers e) (0, 0)) with RepOk => True | _ => False end ->
             In e (c_sorted c1) /\ r_verid e = d_verid T /\ r_contains e k = true /\
-            rpc_ctx c1 (r_verid e) = Some (e, d_leader T) /\ store_reply (r_verid e) (d_leader T) = RepOk).
-  { intros c1 e Hc1 Hin Hs Hv He Hf Hok. destruct (from_entry c1 e Hc1 Hin Hv He Hf Hs e (or_intror I)) as [Hrpc [Hl|Hrep]].
-    - split; [exact Hin|]. split; [exact Hv|]. split; [exact (search_contains _ _ false _ Hs)|]. rewrite Hl in Hrpc. split; [exact Hrpc|].
+            store_reply (r_verid e) (d_leader T) = RepOk /\ nth (r_work e) (r_peers e) (0, 0) = d_leader T).
+  { intros c1 e Hc1 Hin Hs Hv He Hf Hep Hok. destruct (from_entry c1 e Hc1 Hin Hv He Hf Hep) as [Hrpc [Hl|Hrep]].
+    - split; [exact Hin|]. split; [exact Hv|]. split; [exact (search_contains _ _ false _ Hs)|]. split; [|exact Hl].
       rewrite Hl in Hok. destruct (store_reply (r_verid e) (d_leader T)); try contradiction. reflexivity.
     - rewrite Hrep in Hok. contradiction. }
+  assert (Hload : load_state c -> exists e, In e (c_sorted c') /\ r_verid e = d_verid T /\ r_contains e k = true /\
+            store_reply (r_verid e) (d_leader T) = RepOk /\ nth (r_work e) (r_peers e) (0, 0) = d_leader T).
+  { intros Hl. destruct (find_load c Hc Hl) as [c1 [r1 [Hf [Hc1 [Hs [Hin [Hv [He [Hfl Hep]]]]]]]]].
+    unfold Converge.round in Hr. rewrite Hf in Hr. replace (r_verid (new_region T)) with (r_verid r1) in Hr by (rewrite Hv; reflexivity).
+    rewrite (rpc_ctx_in c1 r1 Hc1 Hin He Hfl Hep) in Hr. exists r1.
+    destruct (store_reply (r_verid r1) (nth (r_work r1) (r_peers r1) (0, 0))) eqn:Erep; try discriminate. injection Hr as <-.
+    apply (Hent c1); try assumption. rewrite Erep. exact I. }
   destruct (search (c_sorted c) k false) as [x|] eqn:Es.
-  2:{ destruct (find_load c Hc) as [c1 [r1 [Hf [Hc1 [Hs [Hin [Hv [He Hfl]]]]]]]]; [unfold load_state; rewrite Es; exact I|].
-      unfold Converge.round in Hr. rewrite Hf in Hr. replace (r_verid (new_region T)) with (r_verid r1) in Hr by (rewrite Hv; reflexivity).
-      rewrite (rpc_ctx_in c1 r1 Hc1 Hin He Hfl) in Hr. exists r1.
-      destruct (store_reply (r_verid r1) (nth (r_work r1) (r_peers r1) (0, 0))) eqn:Erep; try discriminate. injection Hr as <-.
-      apply Hent; try assumption. rewrite Erep. exact I. }
-  destruct (r_expired x) eqn:Ee; [|destruct (flagged x) eqn:Ef].
-  - destruct (find_load c Hc) as [c1 [r1 [Hf [Hc1 [Hs [Hin [Hv [He Hfl]]]]]]]]; [unfold load_state; rewrite Es; left; exact Ee|].
-    unfold Converge.round in Hr. rewrite Hf in Hr. replace (r_verid (new_region T)) with (r_verid r1) in Hr by (rewrite Hv; reflexivity).
-    rewrite (rpc_ctx_in c1 r1 Hc1 Hin He Hfl) in Hr. exists r1.
-    destruct (store_reply (r_verid r1) (nth (r_work r1) (r_peers r1) (0, 0))) eqn:Erep; try discriminate. injection Hr as <-.
-    apply Hent; try assumption. rewrite Erep. exact I.
-  - destruct (find_load c Hc) as [c1 [r1 [Hf [Hc1 [Hs [Hin [Hv [He Hfl]]]]]]]]; [unfold load_state; rewrite Es; right; exact Ef|].
-    unfold Converge.round in Hr. rewrite Hf in Hr. replace (r_verid (new_region T)) with (r_verid r1) in Hr by (rewrite Hv; reflexivity).
-    rewrite (rpc_ctx_in c1 r1 Hc1 Hin He Hfl) in Hr. exists r1.
-    destruct (store_reply (r_verid r1) (nth (r_work r1) (r_peers r1) (0, 0))) eqn:Erep; try discriminate. injection Hr as <-.
-    apply Hent; try assumption. rewrite Erep. exact I.
-  - destruct (verid_eqb (r_verid x) (d_verid T)) eqn:Ev.
-    + apply verid_eqb_eq in Ev. assert (Hin : In x (c_sorted c)) by (eapply search_in; exact Es).
-      unfold Converge.round in Hr. rewrite (find_hit c x Es Ee Ef), (rpc_ctx_in c x Hc Hin Ee Ef) in Hr. exists x.
-      destruct (store_reply (r_verid x) (nth (r_work x) (r_peers x) (0, 0))) eqn:Erep; try discriminate. injection Hr as <-.
-      apply Hent; try assumption. rewrite Erep. exact I.
-    + exfalso. assert (Hst : stale c x).
-      { repeat split; try assumption. intros H. apply verid_eqb_eq in H. congruence. }
-      destruct (stale_round c x Hc Hst) as [c1 [Hr1 _]]. rewrite Hr1 in Hr. discriminate.
+  2:{ apply Hload. unfold load_state. rewrite Es. exact I. }
+  destruct (r_expired x) eqn:Ee; [apply Hload; unfold load_state; rewrite Es; left; exact Ee|].
+  destruct (flagged x) eqn:Ef; [apply Hload; unfold load_state; rewrite Es; right; exact Ef|].
+  destruct (N.eq_dec (store_epoch (c_sepochs c) (snd (nth (r_work x) (r_peers x) (0, 0)))) (nth (r_work x) (r_sepochs x) 0)) as [Hep|Hep].
+  2:{ exfalso. destruct (epoch_bad_round c x Hc Es Ee Ef Hep) as [c1 [Hr1 _]]. rewrite Hr1 in Hr. discriminate. }
+  destruct (verid_eqb (r_verid x) (d_verid T)) eqn:Ev.
+  - apply verid_eqb_eq in Ev. assert (Hin : In x (c_sorted c)) by (eapply search_in; exact Es).
+    unfold Converge.round in Hr. rewrite (find_hit c x Es Ee Ef), (rpc_ctx_in c x Hc Hin Ee Ef Hep) in Hr. exists x.
+    destruct (store_reply (r_verid x) (nth (r_work x) (r_peers x) (0, 0))) eqn:Erep; try discriminate. injection Hr as <-.
+    apply (Hent c); try assumption. rewrite Erep. exact I.
+  - exfalso. assert (Hst : stale c x).
+    { repeat split; try assumption. intros H. apply verid_eqb_eq in H. congruence. }
+    destruct (stale_round c x Hc Hst) as [c1 [Hr1 _]]. rewrite Hr1 in Hr. discriminate.
 Qed.
 End Conv.
